@@ -86,15 +86,6 @@ fn c11_skip_target_boundaries_2p20() {
     check_skip_target_boundaries(n, 17);
 }
 
-/// n < 2^32.
-#[kani::proof]
-#[kani::unwind(32)]
-fn c11_skip_target_boundaries_2p32() {
-    let n: u64 = kani::any();
-    kani::assume(n < (1 << 32));
-    check_skip_target_boundaries(n, 29);
-}
-
 // ---------------------------------------------------------------------------------------------
 // direct construction of a segment
 // ---------------------------------------------------------------------------------------------
